@@ -44,7 +44,7 @@ CHECKS = [
                 "identity), paddings (aligned absolute/relative, exact), fills and terminal sizes, the padded output "
                 "is executed on the terminal model and compared cell-by-cell and placement-by-placement with the bare "
                 "render placed at the offset given by reference arithmetic; covers Padding.pad, Renderable.render, "
-                "RenderIterator (incl. set_padding), format(image, spec) and image.draw(); a small grid of aligned "
+                "RenderIterator (incl. set_padding, also after the iterator's own render size was changed), format(image, spec) and image.draw(); a small grid of aligned "
                 "paddings is enumerated exhaustively.",
         "note": "Trusts vf.vt terminal semantics and the one-column-fill precondition documented for Padding.",
     },
@@ -113,7 +113,8 @@ CHECKS = [
                 "kitty workaround, split cells, up to 24x12 cells, exact-size and resampled, alpha transitions inside "
                 "colour runs) are executed on the terminal model; the half-cell colours read back are compared exactly "
                 "with a reference built from the documented conversion, threshold and compositing rules; determinism, "
-                "split-cells equivalence and uniformity are checked as metamorphic relations.",
+                "split-cells equivalence and uniformity are checked as metamorphic relations; the public path format(image, "
+                "'1.1#...') with the same transparency setting written as a specifier must give the identical render.",
         "note": "Trusts Pillow convert/BOX resize/alpha_composite and vf.vt; the kitty BG+-1 nudge is accepted only on "
                 "halves painted with a cell background equal to the known terminal background.",
     },
@@ -134,7 +135,8 @@ CHECKS = [
                 "queries according to a generated profile and a generated reply schedule under a virtual clock "
                 "(patched select/monotonic). Every query function and the support/auto-selection logic is compared "
                 "with a documentation-derived reference; after each call no reply byte may remain unread and waiting "
-                "is bounded by the timeout; disabled queries must send nothing.",
+                "is bounded by the timeout; disabled queries must send nothing; colours are requested bare, with hex=True "
+                "and with hex=False within one cache epoch.",
         "note": "Replies are written as units with total delay per query below the timeout (the property's domain); "
                 "virtual time replaces real sleeping; kernel pty/termios are real.",
     },
@@ -173,8 +175,11 @@ CHECKS = [
                 "whose acceptable values are the fresh computation plus only the staleness the documentation allows; "
                 "patterns disabled->compute->enabled->compute and compute->toggle->recompute are generated "
                 "deliberately, also with a Process.start() (which migrates lock and cell-size cache to multi-process "
-                "objects) in between and with a resize landing while a terminal_size_cached body runs. Concurrent "
-                "first calls of a cached function must run each body exactly once.",
+                "objects) in between, with a resize landing while a terminal_size_cached body runs, and with pairs of "
+                "memoized calls whose argument tuples are distinct but easily confused (equal hashes, same keyword names). "
+                "Clause toggle_schedules runs enable_queries() against reads in other threads under harness-owned "
+                "schedules (every lock operation a scheduling point): afterwards no disabled-time result may be served. "
+                "Concurrent first calls of a cached function must run each body exactly once.",
         "note": "Pixel-size/reported-value changes need only be noticed on a size change in cells or a toggle; only "
                 "results obtained while queries were disabled must be discarded by enable_queries().",
     },
@@ -182,7 +187,8 @@ CHECKS = [
         "property_id": "C06",
         "technique": "property-based testing: captured draw() output executed on a terminal model with sentinel rows; reference size-validation rules",
         "text": "Generated draws in both APIs (instrumented renderables incl. INDEFINITE streams; Block/Kitty/ITerm2 "
-                "images still and animated, every quirk identity; paddings, loops/repeat, cache, check_size, scroll, "
+                "images still and animated, every quirk identity incl. the kitty versions on both sides of the 0.25.0 "
+                "per-frame-deletion boundary; paddings, loops/repeat, cache, check_size, scroll, "
                 "hide_cursor, echo_input, TTY or not) on generated terminal sizes and initial cursor rows; the output is "
                 "replayed on the terminal model: at every flush and at the end the padded region must be where the "
                 "first frame was drawn, every other cell unchanged modulo unavoidable scrolling, cursor visible at "
@@ -233,7 +239,7 @@ CHECKS = [
         "technique": "model-based differential testing of generated redraw histories: long-lived screen + terminal model vs a fresh screen drawing the same canvas into a fresh model",
         "text": "Generated histories of layout edits over urwid trees holding kitty/iterm2/block image widgets (insert, "
                 "remove, swap, resize, scroll, overlay cover/uncover, retarget, widget creation/deletion+gc, clear, "
-                "stop/start, explicit clear_images, wrong-size draws, bare non-composite tops, widgets that are instances of an application subclass of "
+                "stop/start, explicit clear_images, clear_images(now=True) routed to the same terminal, wrong-size draws, bare non-composite tops, widgets that are instances of an application subclass of "
                 "UrwidImage) on kitty/konsole/wezterm/"
                 "unknown identities; after each redraw the graphics-placement map and text cells of the long-lived "
                 "terminal model must equal those of a fresh screen drawing the same canvas from scratch; every redraw "
@@ -242,7 +248,8 @@ CHECKS = [
                 "its documented sequence incl. exhaustion and recycling.",
         "note": "Trusts vf.vt (kitty placements persist until deleted; konsole treats iTerm2 images as placements), "
                 "urwid 2.6.16 and its canvas cache; after an explicit clear_images() only left-over images are judged "
-                "until the next full repaint (missing ones are unspecified); clear_images(now=True) not covered.",
+                "while the very same canvas object is drawn again (urwid skips such a draw); known finding "
+                "C18-disguise-states-cancel-after-repeated-clear-images is excluded by signature and reported.",
     },
     {
         "property_id": "C11",
